@@ -33,7 +33,7 @@ type history struct {
 }
 
 var setFloats = []float64{0, 1.5, -2.25, 1e300, 5e-324, math.MaxFloat64, 1e21, 1e-7, 123456789.125}
-var setStrings = []string{"", "x", "new value", "with \"quote\" and \\ backslash", "é€😀", "\x00\x1f ctl", strings.Repeat("long", 30)}
+var setStrings = []string{"", "x", "new value", "with \"quote\" and \\ backslash", "é€😀", "\x00\x1f ctl", strings.Repeat("long", 30), strings.Repeat("longer than the whole document ", 40)}
 
 func (c *Ctx) pickEdit(r *Rng, h *history, deletes bool) *editOp {
 	pos, err := flatPositions(h.pj, 100000)
